@@ -146,3 +146,30 @@ Theorem teardown_only_after_quiescence :
   i < n -> 0 < nth i (st_closed s) 0 -> sp_quiet (st_pool s) = true /\ quiescent s.
 Proof. exact teardown_after_quiescence_l. Qed.
 Print Assumptions teardown_only_after_quiescence.
+
+(* ---- the hypothesis on the cyclical queues -------------------------------------------------- *)
+From OFGA Require Import Conc.CycleGroupBounded Conc.CycleGroupBoundedProofs.
+
+(* HYPOTHESIS of no_deadlock / teardown_completes, explicit: in the model a Send on a cyclical
+   edge never blocks -- a goroutine at Send can always execute it (enqueue, or fail on a closed
+   queue / cancelled context).  The code satisfies it by building the queue of every cyclical edge
+   with unlimited extensions (worker.NewQueueMedium -> mpmc.MustQueue(capacity, -1)); the driver
+   reads that field on every run and reports DIFF "cyclical queue is bounded" otherwise. *)
+Theorem cyclic_send_never_blocks :
+  forall s k pr m r, nth_error (st_proc s) k = Some pr -> p_pc pr = PSend m r ->
+  exists s', step s (TP k) = Some s'.
+Proof. exact cyclic_send_never_blocks_l. Qed.
+Print Assumptions cyclic_send_never_blocks.
+
+(* ... and the hypothesis is necessary: with a bounded cyclical queue (here capacity 2, one
+   member, one goroutine, one message with four children) a state is reached in which no
+   goroutine can step, the latch is open and the request is not cancelled -- the in-flight count
+   never reaches zero, teardown never starts, the output never closes *)
+Theorem bounded_cyclic_queue_deadlock_refuted :
+  exists cap s,
+    s = run_bounded cap (init 1 1 [(0, [Msg 0 [Msg 0 []; Msg 0 []; Msg 0 []; Msg 0 []]])])
+                    (flat_map (fun _ => [TP 1; TP 0; TM 0]) (seq 0 40)) /\
+    (forall t, t <> TC -> step_bounded cap s t = None) /\
+    final s = false /\ sp_quiet (st_pool s) = false /\ st_cancel s = false /\ edge_len s 0 0 = cap.
+Proof. exists 2, bq_state. split; [reflexivity|exact bounded_queue_deadlock_l]. Qed.
+Print Assumptions bounded_cyclic_queue_deadlock_refuted.
